@@ -711,9 +711,10 @@ impl PathGen {
                 _ => Lit::Null,
             }
         } else {
-            match rng.below(8) {
+            match rng.below(9) {
                 0 => Lit::Null,
                 1 => Lit::Bool(rng.bool()),
+                8 => Lit::Num(Num::f(*rng.pick(&[18446744073709551616.0, 1e20, -9223372036854775809.0, 36893488147419103232.0, -1e25]))),
                 2..=4 => {
                     let n = num(rng, false);
                     Lit::Num(lit_num(&n))
@@ -948,6 +949,8 @@ pub fn big_doc(rng: &mut Rng, huge: bool) -> Tree {
         0 => Tree::Arr((0..n).map(|i| if i % 7 == 0 { Tree::Str(format!("s{}", i)) } else { Tree::Num(Num::U(i as u64)) }).collect()),
         1 => Tree::obj_from((0..n.min(70_000)).map(|i| (format!("k{:06}", i), if i % 5 == 0 { Tree::Null } else { Tree::Num(Num::I(-(i as i64))) })).collect()),
         2 => {
+            // a payload beyond 64 KiB is cheap to handle: always allowed
+            let n = if rng.chance(1, 2) { *rng.pick(&[65_535usize, 65_536, 70_000]) } else { n };
             let s: String = (0..n).map(|i| (b'a' + (i % 26) as u8) as char).collect();
             Tree::Arr(vec![Tree::Bool(true), Tree::Str(s), Tree::Num(Num::U(7)), Tree::Arr(vec![Tree::Null])])
         }
@@ -956,8 +959,9 @@ pub fn big_doc(rng: &mut Rng, huge: bool) -> Tree {
             Tree::obj_from(vec![("a".into(), Tree::Num(Num::U(1))), (k, Tree::Arr(vec![Tree::Num(Num::U(2)), Tree::Str("x".into())])), ("z".into(), Tree::Bool(false))])
         }
         4 => {
-            // big nested container in the middle of siblings
-            let inner = Tree::Arr((0..n_small).map(|i| Tree::Num(Num::U(i as u64 * 1000))).collect());
+            // big nested container (sometimes beyond 64 KiB of payload) in the middle of siblings
+            let pad: String = if rng.chance(1, 2) { std::iter::repeat('p').take(260).collect() } else { String::new() };
+            let inner = Tree::Arr((0..n_small).map(|i| if pad.is_empty() { Tree::Num(Num::U(i as u64 * 1000)) } else { Tree::Str(format!("{}{}", pad, i)) }).collect());
             Tree::obj_from(vec![("a".into(), Tree::Str("before".into())), ("b".into(), inner), ("c".into(), Tree::Str("after".into()))])
         }
         _ => {
